@@ -177,6 +177,9 @@ CHECKS = {
             {"name": "c06", "run": "^TestC06_", "shards": {"quick": 16, "thorough": 16},
              "timeout": {"quick": 900, "thorough": 3000},
              "checks": ["c06-lifecycle", "c06-cut-enumeration"]},
+            {"name": "c06eio", "run": "^TestC17_CloseRace$", "shards": {"quick": 8, "thorough": 16},
+             "timeout": {"quick": 900, "thorough": 3000}, "env": {"VERIF_AS": "C06"},
+             "checks": ["c06-engine-close-race"]},
         ],
     },
 }
